@@ -1432,6 +1432,83 @@ theorem GI.steps {cat0 : List Group} {σ : St} (hw : WF σ) (h : GI cat0 σ) (op
 theorem GI.self (σ : St) : GI σ.cat σ :=
   fun g0 hg0 hd => Or.inl ⟨g0, hg0, rfl, rfl, rfl, hd⟩
 
+/-! ### pruning marks nothing but the shard it is asked to (ids of a group consecutive) -/
+
+/-- the ids of a group are consecutive (they are allocated with `MaxShardID++` in one loop):
+every id between the first and the last is an id of the group. -/
+def NoHoles (g : Group) : Prop :=
+  ∀ f l, g.shards.head? = some f → g.shards.getLast? = some l → ∀ id, f.sid ≤ id → id ≤ l.sid → id ∈ g.sids
+
+theorem markFirstGE_only {id : Nat} {l : List CShard} (hs : (l.map (·.sid)).Pairwise (· < ·))
+    (hin : id ∈ l.map (·.sid)) : ∀ c' ∈ markFirstGE id l,
+      ∃ c ∈ l, c'.sid = c.sid ∧ c'.mine = c.mine ∧ (c'.marked = c.marked ∨ c'.sid = id) := by
+  induction l with
+  | nil => simp at hin
+  | cons a r ih =>
+    intro c' h
+    simp only [List.map_cons, List.pairwise_cons] at hs
+    simp only [List.map_cons, List.mem_cons] at hin
+    simp only [markFirstGE] at h
+    split at h
+    · rename_i hle
+      have ha : a.sid = id := by
+        rcases hin with h1 | h1
+        · exact h1.symm
+        · have : a.sid < id := hs.1 id h1
+          omega
+      rcases List.mem_cons.mp h with rfl | h
+      · exact ⟨a, List.mem_cons_self, rfl, rfl, Or.inr ha⟩
+      · exact ⟨c', List.mem_cons_of_mem _ h, rfl, rfl, Or.inl rfl⟩
+    · rename_i hle
+      rcases List.mem_cons.mp h with rfl | h
+      · exact ⟨c', List.mem_cons_self, rfl, rfl, Or.inl rfl⟩
+      · have hin' : id ∈ r.map (·.sid) := by
+          rcases hin with h1 | h1
+          · omega
+          · exact h1
+        obtain ⟨c, hc, hh⟩ := ih hs.2 hin' c' h
+        exact ⟨c, List.mem_cons_of_mem _ hc, hh⟩
+
+theorem pruneGroup_only (id : Nat) (g : Group) (hs : g.sids.Pairwise (· < ·)) (hnh : NoHoles g) :
+    ∀ c' ∈ (pruneGroup id g).shards,
+      ∃ c ∈ g.shards, c'.sid = c.sid ∧ c'.mine = c.mine ∧ (c'.marked = c.marked ∨ c'.sid = id) := by
+  intro c' h
+  unfold pruneGroup at h
+  split at h
+  · rename_i f l hf hl
+    split at h
+    · rename_i hguard
+      simp only [Bool.and_eq_true, decide_eq_true_eq] at hguard
+      exact markFirstGE_only hs (hnh f l hf hl id hguard.1 hguard.2) c' h
+    · exact ⟨c', h, rfl, rfl, Or.inl rfl⟩
+  · exact ⟨c', h, rfl, rfl, Or.inl rfl⟩
+
+/-- one loop iteration changes the `MarkDelete` flag of no catalogue entry but the reported shard's. -/
+theorem procItem_marks_only {o : Outcome} {q : QItem} {σ : St} (hst : CatStatic σ.cat)
+    (hnh : ∀ g ∈ σ.cat, NoHoles g) {g' : Group} {c' : CShard}
+    (hg' : g' ∈ (procItem o q σ).cat) (hc' : c' ∈ g'.shards) :
+    ∃ g ∈ σ.cat, ∃ c ∈ g.shards, c'.sid = c.sid ∧ c'.mine = c.mine ∧ (c'.marked = c.marked ∨ c'.sid = q.sid) := by
+  simp only [procItem] at hg'
+  have h2 : ∃ g1 ∈ markStage o.markOk q.gid σ.cat, ∃ c ∈ g1.shards, c'.sid = c.sid ∧ c'.mine = c.mine ∧
+      (c'.marked = c.marked ∨ c'.sid = q.sid) := by
+    unfold pruneStage at hg'
+    split at hg'
+    · unfold pruneCat at hg'
+      obtain ⟨hm, _⟩ := List.mem_filter.mp hg'
+      obtain ⟨g1, hg1, rfl⟩ := List.mem_map.mp hm
+      obtain ⟨g, hg, hsk, hsh, _⟩ := mem_markStage hg1
+      have hs1 : g1.sids.Pairwise (· < ·) := by rw [hsk.2.2.2]; exact (hst g hg).2
+      have hn1 : NoHoles g1 := by
+        intro f l hf hl id h1 h2
+        rw [hsk.2.2.2]
+        exact hnh g hg f l (hsh ▸ hf) (hsh ▸ hl) id h1 h2
+      obtain ⟨c, hc, hh⟩ := pruneGroup_only q.sid g1 hs1 hn1 c' hc'
+      exact ⟨g1, hg1, c, hc, hh⟩
+    · exact ⟨g', hg', c', hc', rfl, rfl, Or.inl rfl⟩
+  obtain ⟨g1, hg1, c, hc, hh⟩ := h2
+  obtain ⟨g, hg, _, hsh, _⟩ := mem_markStage hg1
+  exact ⟨g, hg, c, hsh ▸ hc, hh⟩
+
 theorem WF.steps {σ : St} (h : WF σ) (ops : List Op) : WF (steps σ ops) := by
   induction ops generalizing σ with
   | nil => exact h
